@@ -624,7 +624,7 @@ def rows_ok(P, out_weight, K):
     return True
 
 
-def oracle_fit(ctx, args, o, kind, nr, nc, t, bip):
+def oracle_fit(ctx, args, o, kind, nr, nc, t, bip, dtype=None):
     """The property, stated independently, on one fitted estimator.  Returns True when the labels are usable."""
     algo = args['algo']
     opts = args['options']
@@ -633,7 +633,7 @@ def oracle_fit(ctx, args, o, kind, nr, nc, t, bip):
                  np_seed=args.get('np_seed'))
 
     def bad(check, what, **kw):
-        ctx.violation(site, what, case=small, algo=algo, check=check, graph=kind, **kw)
+        ctx.violation(site, what, case=small, algo=algo, check=check, graph=kind, dtype=dtype or args['m'].get('dtype'), **kw)
 
     # -- exactly one integer label per node (per row and per column)
     def vec_ok(x, n):
@@ -757,7 +757,12 @@ def part_fit(ctx, impl, rng, quick):
     for (algo, kind, nr, nc, t, fam, opts, fb) in plan:
         bip = nr != nc or (fb and algo != 'propagation')
         k2 = 'bipartite' if bip else ('directed' if kind == 'bipartite' else kind)
-        dtype = 'float' if any(w != int(w) for (_, _, w) in t) else rng.choice(['int', 'float'])
+        if any(w != int(w) for (_, _, w) in t):
+            dtype = 'float'
+        elif all(w == 1 for (_, _, w) in t):
+            dtype = rng.choice(['bool', 'int', 'float'])
+        else:
+            dtype = rng.choice(['int', 'float'])
         args = dict(algo=algo, m=mspec(nr, nc, t, dtype=dtype), options=opts, force_bipartite=fb, np_seed=rng.randint(0, 10 ** 6))
         r = impl.call('c05', 'fit', args, timeout=120 if algo == 'kcenters' else 60)
         ctx.traces += 1
@@ -785,6 +790,59 @@ def part_fit(ctx, impl, rng, quick):
         check_secondary(ctx, SITE[algo], [it for it in items if it[0]['algo'] == algo], 'fit' + algo, extra=dict(algo=algo))
 
 
+# ------------------------------------------------------------------------------------------------
+# part 6: same graph as bool / int / float matrix x return_probs x return_aggregate (all four combinations)
+# ------------------------------------------------------------------------------------------------
+def part_dtype(ctx, impl, rng, quick):
+    graphs = []   # (kind, nr, nc, unit triples, force_bipartite)
+    two_tri = gen.sym([(0, 1), (0, 2), (1, 2), (3, 4), (3, 5), (4, 5), (2, 3)])
+    graphs.append(('undirected', 6, 6, [(i, j, 1) for (i, j) in two_tri], False))
+    graphs.append(('undirected', 5, 5, [(i, j, 1) for (i, j) in gen.sym([(0, 1), (1, 2), (3, 3)])], False))   # isolated node, self-loop
+    graphs.append(('directed', 5, 5, [(0, 1, 1), (1, 2, 1), (2, 0, 1), (2, 3, 1), (3, 4, 1), (4, 3, 1)], False))
+    graphs.append(('bipartite', 3, 4, [(0, 0, 1), (0, 1, 1), (1, 1, 1), (1, 2, 1), (2, 2, 1), (2, 3, 1)], False))
+    graphs.append(('bipartite', 3, 3, [(0, 0, 1), (0, 1, 1), (1, 1, 1), (2, 2, 1)], True))
+    for _ in range(5 if quick else 60):
+        kind, nr, nc, t, fam = random_case(rng, 10 if quick else 30)
+        t = [(i, j, 1) for (i, j, _) in t]
+        graphs.append((kind, nr, nc, t, kind == 'bipartite' and nr == nc))
+    items = []
+    errors = {}
+    for (kind, nr, nc, t, fb) in graphs:
+        for algo in ('louvain', 'leiden', 'propagation', 'kcenters'):
+            if algo == 'propagation' and fb:
+                continue
+            bip = nr != nc or (fb and algo != 'propagation')
+            k2 = 'bipartite' if bip else ('directed' if kind == 'bipartite' else kind)
+            combos = [(None, None)] if algo == 'kcenters' else [(p, a) for p in (False, True) for a in (False, True)]
+            if algo == 'kcenters' and (nr < 3 or (quick and len(items) % 3)):
+                continue
+            for (rp, ra) in combos:
+                for dtype in ('bool', 'int', 'float'):
+                    if algo == 'kcenters':
+                        opts = dict(n_clusters=2, n_init=1, center_position='row')
+                    else:
+                        opts = dict(return_probs=rp, return_aggregate=ra, sort_clusters=True)
+                    args = dict(algo=algo, m=mspec(nr, nc, t, dtype=dtype), options=opts, force_bipartite=fb, np_seed=rng.randint(0, 10 ** 6))
+                    r = impl.call('c05', 'fit', args, timeout=120 if algo == 'kcenters' else 60)
+                    ctx.traces += 1
+                    ctx.count('dtype:%s:%s:%s' % (algo, k2, dtype), ('dtype', args), True)
+                    if 'ok' not in r:
+                        key = '%s:%s:%s' % (algo, dtype, r.get('err') or ('hang' if r.get('hang') else 'crash'))
+                        errors[key] = errors.get(key, 0) + 1
+                        continue
+                    o = r['ok']
+                    if oracle_fit(ctx, args, o, k2, nr, nc, t, bip, dtype=dtype) and algo != 'kcenters':
+                        items.append((dict(algo=algo, options=opts, m=args['m'], force_bipartite=fb, np_seed=args['np_seed']), o, nr, nc, t, bip))
+    if errors:
+        ctx.notes.append('dtype part, fits that raised (not judged here): %s' % sorted(errors.items()))
+    ctx.extra['fit_errors_dtype'] = errors
+    for algo in ('louvain', 'leiden', 'propagation'):
+        for dtype in ('bool', 'int', 'float'):
+            check_secondary(ctx, SITE[algo], [it for it in items if it[0]['algo'] == algo and it[0]['m']['dtype'] == dtype],
+                            'dt' + algo + dtype, extra=dict(algo=algo, dtype=dtype))
+    ctx.sample({'kind': 'dtype_cross', 'graphs': len(graphs), 'fits_judged': len(items)})
+
+
 def run(ctx, scratch):
     rng = ctx.rng
     quick = ctx.tier == 'quick'
@@ -795,6 +853,7 @@ def run(ctx, scratch):
         part_propagation(ctx, impl, rng, quick)
         part_kcinit(ctx, impl, rng, quick)
         part_fit(ctx, impl, rng, quick)
+        part_dtype(ctx, impl, rng, quick)
     summary = {}
     for v in ctx.violations + [h[1] for h in ctx.known_hits]:
         key = '%s/%s' % (v.get('site'), v.get('check'))
@@ -805,7 +864,8 @@ def run(ctx, scratch):
                 'optimiser replaced by prescribed per-level answers; PropagationClustering.fit with a prescribed raw labelling; KCenters._init_centers with recorded draws; Louvain, Leiden, '
                 'PropagationClustering, KCenters on all undirected graphs with <= 4 nodes and all 2x2/2x3/3x2 biadjacency matrices '
                 '(default options) and on 13 random graph families (undirected, directed, bipartite; disconnected, isolated nodes, '
-                'self-loops; integer and dyadic weights) x random points of the option space. Model evaluated by vm_compute inside '
+                'self-loops; integer and dyadic weights; bool/int/float dtype) x random points of the option space; fixed and random '
+                'unit-weight graphs as bool, int and float matrices x return_probs x return_aggregate (all four combinations). Model evaluated by vm_compute inside '
                 'Coq from the implementation\'s raw ingredients; distinct by hash of (entry point, arguments); non-trivial = at '
                 'least two clusters / one proper edge')
     ctx.assumptions = ['non-negative edge weights (probs_ rows are stated for non-negative weights), at least one edge',
